@@ -24,9 +24,9 @@ func (r Remote) String() string {
 // empty value or a list without any matching well-formed entry allows nobody;
 // a remote address that is not a TCP/IP address is never allowed.
 //
-// The matcher is deliberately the most permissive sensible reading (an IPv4
-// address and its IPv4-mapped IPv6 form are the same host; malformed entries
-// are skipped rather than poisoning the list) because the property only
+// The matcher is deliberately a permissive reading (an IPv4 address and its
+// IPv4-mapped IPv6 form are the same host, an IPv4-mapped block names the IPv4
+// block; malformed entries are skipped rather than poisoning the list) because the property only
 // constrains acceptances: "accepted => allowed by this matcher".
 func SourceAddressAllows(remote Remote, list string) bool {
 	if remote.Kind != "tcp" {
@@ -37,13 +37,10 @@ func SourceAddressAllows(remote Remote, list string) bool {
 		return false
 	}
 	ra = ra.WithZone("")
-	forms := []netip.Addr{ra.Unmap()}
-	if ra.Unmap().Is4() {
-		forms = append(forms, netip.AddrFrom16(ra.Unmap().As16()))
-	}
+	ra = ra.Unmap()
 	for _, ent := range strings.Split(list, ",") {
 		if a, err := netip.ParseAddr(ent); err == nil {
-			if a.Zone() == "" && a.Unmap() == ra.Unmap() {
+			if a.Zone() == "" && a.Unmap() == ra {
 				return true
 			}
 			continue
@@ -52,14 +49,12 @@ func SourceAddressAllows(remote Remote, list string) bool {
 		if err != nil {
 			continue
 		}
-		for _, f := range forms {
-			if p.Contains(f) {
-				return true
-			}
+		if p.Contains(ra) {
+			return true
 		}
 		// an IPv4-mapped block ::ffff:a.b.c.d/(96+n) names the IPv4 block a.b.c.d/n
-		if p.Addr().Is4In6() && p.Bits() >= 96 && ra.Unmap().Is4() {
-			if q, err := p.Addr().Unmap().Prefix(p.Bits() - 96); err == nil && q.Contains(ra.Unmap()) {
+		if p.Addr().Is4In6() && p.Bits() >= 96 && ra.Is4() {
+			if q, err := p.Addr().Unmap().Prefix(p.Bits() - 96); err == nil && q.Contains(ra) {
 				return true
 			}
 		}
